@@ -205,7 +205,7 @@ def case_optim(case, res):
             b = int(rng.integers(2, n))
             kwargs = dict(batch_size=b, batch_seed=int(rng.integers(1, 10 ** 6)))
     lr = float(rng.choice([0.3, 0.1, 0.02]))
-    restore = bool(rng.random() < 0.7)
+    restore = bool(rng.random() < (0.5 if mode == "validation" else 0.7))
     prune = bool(rng.random() < 0.5)
     save_hist = True if restore else bool(rng.random() < 0.5)
     user_p = stopper.patience
@@ -359,7 +359,7 @@ def gen_cases(tier, seed):
         for p in (1, 2, 3, 4):
             for part in range(16):
                 cases.append({"kind": "stopper", "alpha": 6, "L": 7, "p": p, "part": part, "nparts": 16, "cost": 20})
-    n_opt = 14 if q else 150
+    n_opt = 24 if q else 400
     for i in range(n_opt):
         mode = ["batch", "batch", "validation", "plain"][i % 4]
         cases.append({"kind": "optim", "idx": i, "mode": mode, "seed": seed, "cost": 12})
